@@ -136,6 +136,7 @@ type FnCtx struct {
 	pendingClosed [][2]string
 	closedDecls   []string
 	cands         []string
+	localRefs     map[string]bool            // objects allocated by this function that have not escaped (never stored, passed or returned)
 	reachBlock    map[string]*ssa.BasicBlock // reach term of a top-level block -> block
 	ancCache      map[*ssa.BasicBlock]map[*ssa.BasicBlock]bool
 	candBlock     map[string]*ssa.BasicBlock
@@ -1158,4 +1159,29 @@ func (fc *FnCtx) ancestors(b *ssa.BasicBlock) map[*ssa.BasicBlock]bool {
 	}
 	fc.ancCache[b] = a
 	return a
+}
+
+// escape marks every still-local object whose reference occurs in term as escaped
+func (fc *FnCtx) escape(term string) {
+	if len(fc.localRefs) == 0 || term == "" {
+		return
+	}
+	for r := range fc.localRefs {
+		if strings.Contains(term, r) {
+			delete(fc.localRefs, r)
+		}
+	}
+}
+
+func (fc *FnCtx) escapeVal(v Val) {
+	if v.IsAg {
+		for _, a := range v.Agg {
+			fc.escapeVal(a)
+		}
+		return
+	}
+	fc.escape(v.S)
+	if v.Loc != nil {
+		fc.escape(v.Loc.Base)
+	}
 }
